@@ -32,6 +32,7 @@ _Bool nondet_bool(void);
 size_t gk;      /* ghost byte index            */
 size_t gi;      /* ghost element / member index */
 size_t gj;      /* second ghost index           */
+size_t gp;      /* ghost first-difference index (C19)  */
 
 /* ---- std:: helpers mapped 1:1 ----------------------------------------- */
 #define OP2_SWAP(a, b) do { __typeof__(a) op2_swap_tmp = (a); (a) = (b); (b) = op2_swap_tmp; } while (0)
